@@ -286,7 +286,9 @@ class SymInt(object):
         raise Unsupported("int() of a symbolic int reached C code")
 
     def __index__(self):
-        raise Unsupported("symbolic int used as an index")
+        # a table looked up at a symbolic position: one path per feasible value (solver-driven forking)
+        from .calmodel import concretise_int
+        return concretise_int(self, "index")
 
     def to_float(self):
         return SymFloat(z3.ToReal(self.e))
